@@ -84,7 +84,10 @@ EncCalls(n) == {[ranks |-> PList(v), scores |-> PNone] : v \in EncVectors(n)}
 OutcomeChoices(n) == IF OutcomeStyle = "dense" THEN DenseVectors(n) ELSE EncCalls(n)
 GameChoices(n) == IF OutcomeStyle = "dense" THEN Assignments(n)
                   ELSE {g \in Assignments(n) : \A r \in 1..CastSize : g[r] = 0 \/ g[r] = r}
-Pending == UNION {UNION {UNION {{<<ki, si, n, f, o>> : f \in GameChoices(n), o \in OutcomeChoices(n)}
+\* (TLC evaluates constant-level definitions eagerly at start-up: without the guard the unused 9^n outcome vectors of
+\*  the "encodings" style were built, and unioned, in every "predict" run - 12 minutes for n = 4)
+Pending == IF OutcomeStyle = "predict" THEN {} ELSE
+           UNION {UNION {UNION {{<<ki, si, n, f, o>> : f \in GameChoices(n), o \in OutcomeChoices(n)}
              : n \in 2..MaxTeams} : si \in 1..NS} : ki \in {k \in 1..5 : KindSeq[k] \in KindSet}}
 
 CallOf(p) ==
@@ -95,7 +98,8 @@ CallOf(p) ==
        tau |-> CallTau(SettingSeq[si]), limit |-> CallLimit(SettingSeq[si])]
 
 \* predictions over the same games (OutcomeStyle = "predict"): the outcome component carries the operation
-PredPending == UNION {UNION {{<<ki, 1, n, f, op>> : f \in Assignments(n), op \in {"win", "draw", "rank"}}
+PredPending == IF OutcomeStyle # "predict" THEN {} ELSE
+               UNION {UNION {{<<ki, 1, n, f, op>> : f \in Assignments(n), op \in {"win", "draw", "rank"}}
                  : n \in 2..MaxTeams} : ki \in {k \in 1..5 : KindSeq[k] \in KindSet}}
 PredCallOf(p) == [m |-> Mid(p[1], p[2]), op |-> p[5], teams |-> GamePV(p[4], p[3], (p[1] - 1) * CastSize)]
 
